@@ -10,7 +10,7 @@ import ast
 
 from ..cfg import cfg_of
 from ..flow import deref, flow_of, path_of
-from ..loader import FUNC, AnalysisError, dotted, last_name, loc, short, walk_local
+from ..loader import FUNC, AnalysisError, dotted, enclosing_stmt, last_name, loc, short, walk_local
 from ..util import PATH, SYSTEM, kwarg, oriented
 from ..variants import B, K
 
@@ -166,6 +166,30 @@ def r151(ctx):
             ctx.bad(rid, r, "System.copy does not return a new object: copies of a path alias the original's frames")
 
 
+def _backward_iter(f, it, pb):
+    """How the first loop of paste_paths visits the backward segment:
+    'reversed' (a reversed view / copy), 'inplace' (the caller's frame list reversed in place), or the text."""
+    fl = flow_of(f)
+    e = it
+    if isinstance(e, ast.Name):
+        for at_ in (it, enclosing_stmt(it)):
+            try:
+                e, _ = deref(fl, it, fl.cfg.node_of(at_))
+                break
+            except Exception:
+                e = it
+    while isinstance(e, ast.Call) and last_name(e) in ("list", "tuple") and len(e.args) == 1:
+        e = e.args[0]
+    txt = ast.unparse(e)
+    if txt in (f"reversed({pb}.phasepoints)", f"{pb}.phasepoints[::-1]", f"reversed(list({pb}.phasepoints))"):
+        return "reversed", txt
+    if txt == f"{pb}.phasepoints" and isinstance(it, ast.Name):
+        if any(isinstance(c, ast.Call) and isinstance(c.func, ast.Attribute) and c.func.attr == "reverse" and isinstance(c.func.value, ast.Name) and c.func.value.id == it.id for c in walk_local(f)):
+            return "inplace", txt
+    return "other", ast.unparse(it)
+
+
+
 def _paste_slice_form(ctx, rid, f, pb, pf, ov, lb):
     """paste_paths whose forward part is one slice `<new>.phasepoints.extend(path_forw.phasepoints[A:B])`
     (the frame list is extended directly, so Path.append's limit test is bypassed): decided by
@@ -260,9 +284,11 @@ def _paste_slice_form(ctx, rid, f, pb, pf, ov, lb):
                     construct=f"forward slice length, overlap={ovl}")
             bad = True
     # backward loop as before: reversed and appended through Path.append
-    itb = ast.unparse(lb.iter)
-    if itb in (f"reversed({pb}.phasepoints)", f"{pb}.phasepoints[::-1]"):
+    kind_, itb = _backward_iter(f, lb.iter, pb)
+    if kind_ == "reversed":
         ctx.ok(rid, lb, "the backward segment is visited in reverse (time order)")
+    elif kind_ == "inplace":
+        ctx.bad(rid, lb, f"paste_paths reverses the frame list of the backward segment in place (`{ast.unparse(lb.iter)}.reverse()` on `{itb}`): the caller's segment is time-reversed afterwards - its start / end classification is exchanged and pasting it again gives a path that is not time ordered", construct="paste_paths reverses the backward segment in place")
     else:
         ctx.bad(rid, lb, f"the first loop of paste_paths iterates `{itb}`, not the backward segment in reverse", construct="paste_paths first loop over " + itb)
     for _ in range(3):
@@ -300,9 +326,11 @@ def r153(ctx):
     eb, ib, itb_ = loop_parts(lb)
     ef, if_, itf_ = loop_parts(lf)
     # (a) backward loop iterates reversed(path_back.phasepoints)
-    itb = ast.unparse(itb_)
-    if itb in (f"reversed({pb}.phasepoints)", f"{pb}.phasepoints[::-1]"):
+    kind_, itb = _backward_iter(f, itb_, pb)
+    if kind_ == "reversed":
         ctx.ok(rid, lb, "the backward segment is visited in reverse (time order)")
+    elif kind_ == "inplace":
+        ctx.bad(rid, lb, f"paste_paths reverses the frame list of the backward segment in place (`{ast.unparse(itb_)}.reverse()` on `{itb}`): the caller's segment is time-reversed afterwards - its start / end classification is exchanged and pasting it again gives a path that is not time ordered", construct="paste_paths reverses the backward segment in place")
     else:
         ctx.bad(rid, lb, f"the first loop of paste_paths iterates `{itb}`, not the backward segment in reverse: the pasted path is not time ordered / does not begin with the last backward frame", construct="paste_paths first loop over " + itb)
     # (b) forward loop iterates path_forw.phasepoints in order
@@ -602,6 +630,8 @@ def run(ctx):
 
 
 VARIANTS = [
+    B("c15-paste-reverses-backward-segment-in-place", PATH, "    for phasepoint in reversed(path_back.phasepoints):", "    frames_back = path_back.phasepoints\n    frames_back.reverse()\n    for phasepoint in frames_back:", "R-15.3", control=True, why="seeded C15_k"),
+    K("c15-keep-paste-reversed-copy-local", PATH, "    for phasepoint in reversed(path_back.phasepoints):", "    frames_back = list(reversed(path_back.phasepoints))\n    for phasepoint in frames_back:"),
     B("c15-flip-after-early-return", PATH, "            new_point = phasepoint.copy()\n            if rev_v:\n                self.reverse_velocities(new_point)\n            new_path.append(new_point)\n        if order_function is None:\n            return new_path\n", "            new_path.append(phasepoint.copy())\n        if order_function is None:\n            return new_path\n        if rev_v:\n            for new_point in new_path.phasepoints:\n                self.reverse_velocities(new_point)\n", "R-15.1", why="seeded C15_i"),
     K("c15-keep-flip-in-second-loop-before-return", PATH, "            new_point = phasepoint.copy()\n            if rev_v:\n                self.reverse_velocities(new_point)\n            new_path.append(new_point)\n        if order_function is None:\n            return new_path\n", "            new_path.append(phasepoint.copy())\n        if rev_v:\n            for new_point in new_path.phasepoints:\n                self.reverse_velocities(new_point)\n        if order_function is None:\n            return new_path\n"),
     B("c15-extreme-over-all-components", PATH, "        idx = np.argmax([i.order[0] for i in self.phasepoints])", "        idx = np.argmax([i.order for i in self.phasepoints])", "R-15.6", control=True, why="seeded C15_h"),
